@@ -8,6 +8,6 @@ rsync -a --exclude .git /repo/ "$alt/"
 cd /verif
 for c in "$@"; do
   echo "--- $c against $patch"
-  VERIF_REPO="$alt" timeout 1800 ./check $c --tier quick --no-evidence 2>&1 | grep -E "^VIOLATION|^KNOWN|^INCONCLUSIVE|tier=|^    " | head -8 | cut -c1-400
+  VERIF_REPO="$alt" timeout 1800 ./check $c --tier quick --no-evidence 2>&1 | grep -aE "^VIOLATION|^KNOWN|^INCONCLUSIVE|tier=|^    " | head -8 | cut -c1-400
 done
 rm -rf "$alt"
